@@ -729,3 +729,282 @@ Proof. split; [vm_compute; reflexivity|]. eexists. split; vm_compute; reflexivit
 Lemma vtk_newline_title_lemma : forall version vs ts attrs,
   vtk_write [97; 10; 98] version vs ts attrs = Crash AssertionError.
 Proof. reflexivity. Qed.
+
+(* ================= VTK export is accepted by the grammar ================= *)
+
+Definition mkst m nv pts tris attrs : pstate :=
+  {| ps_mode := m; ps_nv := nv; ps_pts := pts; ps_tris := tris; ps_attrs := attrs |}.
+
+Lemma as_count_N : forall n, as_count (GI (Z.of_N n)) = Some n.
+Proof.
+  intro n. unfold as_count. destruct (Z.leb_spec 0 (Z.of_N n)); [|lia]. rewrite N2Z.id. reflexivity.
+Qed.
+
+Lemma step_points_header : forall m nv pts tris attrs n,
+  ps_mode (settle (mkst m nv pts tris attrs)) = MTop ->
+  step (mkst m nv pts tris attrs) (LPoints n) =
+  Some (mkst (MPoints n) (Some n) [] (ps_tris (settle (mkst m nv pts tris attrs)))
+             (ps_attrs (settle (mkst m nv pts tris attrs)))).
+Proof.
+  intros m nv pts tris attrs n H. unfold step. rewrite H.
+  cbn [toks]. change (is_word w_points (GW w_points)) with true. cbv iota.
+  rewrite as_count_N. reflexivity.
+Qed.
+
+Lemma step_vert_row : forall left nv pts tris attrs v, left <> 0 ->
+  step (mkst (MPoints left) nv pts tris attrs) (vert_row v) =
+  Some (mkst (MPoints (left - 1)) nv ((let '(a, b, c) := v in [a; b; c]) :: pts) tris attrs).
+Proof.
+  intros left nv pts tris attrs [[a b] c] H. destruct left as [|p]; [contradiction|]. reflexivity.
+Qed.
+
+Lemma run_vert_rows : forall vs k nv pts tris attrs rest,
+  run_lines (mkst (MPoints (lenN vs + k)) nv pts tris attrs) (map vert_row vs ++ rest) =
+  run_lines (mkst (MPoints k) nv (rev (map (fun '(a, b, c) => [a; b; c]) vs) ++ pts) tris attrs) rest.
+Proof.
+  induction vs as [|v vs IH]; intros k nv pts tris attrs rest.
+  - reflexivity.
+  - cbn [map List.app run_lines]. rewrite step_vert_row by (unfold lenN; cbn [length]; lia).
+    replace (lenN (v :: vs) + k - 1) with (lenN vs + k) by (unfold lenN; cbn [length]; lia).
+    rewrite IH. cbn [rev]. rewrite <- app_assoc. destruct v as [[a b] c]. reflexivity.
+Qed.
+
+Lemma step_polys_header : forall nv pts tris attrs m,
+  step (mkst (MPoints 0) nv pts tris attrs) (LPolygons m (4 * m)) =
+  Some (mkst (MPolys m) nv pts (Some []) attrs).
+Proof.
+  intros. unfold step. cbn [settle mkst ps_mode set_mode ps_nv ps_pts ps_tris ps_attrs toks].
+  change (is_word w_points (GW w_polygons)) with false.
+  change (is_word w_polygons (GW w_polygons)) with true. cbv iota.
+  rewrite !as_count_N, N.eqb_refl. reflexivity.
+Qed.
+
+Definition tri_nonneg (t : Z * Z * Z) : bool := let '(a, b, c) := t in ((0 <=? a) && (0 <=? b) && (0 <=? c))%Z.
+Definition tri_toN (t : Z * Z * Z) : N * N * N := let '(a, b, c) := t in (Z.to_N a, Z.to_N b, Z.to_N c).
+
+Lemma step_tri_row : forall left nv pts acc attrs t, left <> 0 -> tri_nonneg t = true ->
+  step (mkst (MPolys left) nv pts (Some acc) attrs) (tri_row t) =
+  Some (mkst (MPolys (left - 1)) nv pts (Some (tri_toN t :: acc)) attrs).
+Proof.
+  intros left nv pts acc attrs [[a b] c] H Ht. destruct left as [|p]; [contradiction|].
+  unfold tri_nonneg in Ht. apply andb_prop in Ht as [Ht Hc]. apply andb_prop in Ht as [Ha Hb].
+  unfold step. cbn [settle mkst ps_mode tri_row toks map as_count ps_tris ps_nv ps_pts ps_attrs].
+  rewrite Ha, Hb, Hc. reflexivity.
+Qed.
+
+Lemma run_tri_rows : forall ts k nv pts acc attrs rest, forallb tri_nonneg ts = true ->
+  run_lines (mkst (MPolys (lenN ts + k)) nv pts (Some acc) attrs) (map tri_row ts ++ rest) =
+  run_lines (mkst (MPolys k) nv pts (Some (rev (map tri_toN ts) ++ acc)) attrs) rest.
+Proof.
+  induction ts as [|t ts IH]; intros k nv pts acc attrs rest H.
+  - reflexivity.
+  - cbn [forallb] in H. apply andb_prop in H as [Ht Hr].
+    cbn [map List.app run_lines]. rewrite step_tri_row by (try assumption; unfold lenN; cbn [length]; lia).
+    replace (lenN (t :: ts) + k - 1) with (lenN ts + k) by (unfold lenN; cbn [length]; lia).
+    rewrite IH by assumption. cbn [rev]. rewrite <- app_assoc. reflexivity.
+Qed.
+
+Lemma step_point_data : forall nv pts tris attrs,
+  step (mkst (MPolys 0) (Some nv) pts tris attrs) (LPointData nv) =
+  Some (mkst MPointData (Some nv) pts tris attrs).
+Proof.
+  intros. unfold step. cbn [settle mkst ps_mode set_mode ps_nv ps_pts ps_tris ps_attrs toks].
+  change (is_word w_point_data (GW w_point_data)) with true. cbv iota.
+  rewrite as_count_N, N.eqb_refl. reflexivity.
+Qed.
+
+(* names without white space are one token *)
+Lemma tokenize_aux_clean : forall l cur, existsb is_blank_char l = false ->
+  tokenize_aux l cur = match rev cur ++ l with [] => [] | t => [t] end.
+Proof.
+  induction l as [|c l IH]; intros cur H.
+  - cbn. rewrite app_nil_r. destruct cur as [|x cur]; [reflexivity|].
+    destruct (rev (x :: cur)) eqn:E; [|reflexivity].
+    apply (f_equal (@length N)) in E. rewrite rev_length in E. discriminate.
+  - cbn [existsb] in H. apply orb_false_iff in H as [Hc Hl].
+    cbn [tokenize_aux]. rewrite Hc. rewrite (IH (c :: cur) Hl). cbn [rev]. rewrite <- app_assoc. reflexivity.
+Qed.
+
+Lemma blank_is_space : forall c, is_blank_char c = true -> py_space c = true.
+Proof.
+  intros c H. unfold is_blank_char in H. unfold py_space.
+  apply orb_prop in H as [H|H]; apply N.eqb_eq in H; subst; reflexivity.
+Qed.
+
+Lemma tokenize_name : forall name, name_ok name = true -> tokenize name = [name].
+Proof.
+  intros name H. unfold name_ok in H. destruct name as [|c name]; [discriminate|].
+  apply negb_true_iff in H. unfold tokenize. rewrite tokenize_aux_clean.
+  - reflexivity.
+  - clear -H. induction (c :: name) as [|x l IH]; [reflexivity|].
+    cbn [existsb] in *. apply orb_false_iff in H as [Hx Hl]. rewrite (IH Hl), orb_false_r.
+    destruct (is_blank_char x) eqn:E; [|reflexivity]. apply blank_is_space in E. congruence.
+Qed.
+
+Lemma step_scalars : forall s nv pts tris attrs name k, 1 <= k -> name_ok name = true ->
+  settle s = mkst MPointData nv pts tris attrs ->
+  step s (LScalars name (if k =? 1 then None else Some k)) = Some (mkst (MLookup name k) nv pts tris attrs).
+Proof.
+  intros s nv pts tris attrs name k Hk Hn Hs. unfold step. rewrite Hs.
+  cbn [mkst ps_mode toks]. rewrite (tokenize_name name Hn). cbn [map List.app].
+  destruct (N.eqb_spec k 1) as [->|Hne].
+  - cbn [List.app]. change (is_word w_scalars (GW w_scalars)) with true. reflexivity.
+  - cbn [List.app]. change (is_word w_scalars (GW w_scalars)) with true. cbv iota.
+    rewrite as_count_N. destruct (N.eqb_spec k 0); [lia|]. reflexivity.
+Qed.
+
+Lemma step_lookup : forall name k nv pts tris attrs,
+  step (mkst (MLookup name k) (Some nv) pts tris attrs) LLookup =
+  Some (mkst (MScalars name k nv []) (Some nv) pts tris attrs).
+Proof. intros. reflexivity. Qed.
+
+Lemma take_numbers_all : forall r, take_numbers (length r) (map GF r) = Some r.
+Proof. induction r as [|x r IH]; [reflexivity|]. cbn. rewrite IH. reflexivity. Qed.
+
+Lemma step_scalar_row : forall name k left acc nv pts tris attrs r, left <> 0 -> lenN r = k ->
+  step (mkst (MScalars name k left acc) nv pts tris attrs) (LFloats r) =
+  Some (mkst (MScalars name k (left - 1) (r :: acc)) nv pts tris attrs).
+Proof.
+  intros name k left acc nv pts tris attrs r H Hk. destruct left as [|p]; [contradiction|].
+  unfold step. cbn [settle mkst ps_mode toks]. subst k. unfold lenN. rewrite Nat2N.id, take_numbers_all.
+  reflexivity.
+Qed.
+
+Lemma run_scalar_rows : forall rows name k j acc nv pts tris attrs rest,
+  forallb (fun r => lenN r =? k) rows = true ->
+  run_lines (mkst (MScalars name k (lenN rows + j) acc) nv pts tris attrs) (map LFloats rows ++ rest) =
+  run_lines (mkst (MScalars name k j (rev rows ++ acc)) nv pts tris attrs) rest.
+Proof.
+  induction rows as [|r rows IH]; intros name k j acc nv pts tris attrs rest H.
+  - reflexivity.
+  - cbn [forallb] in H. apply andb_prop in H as [Hr Hrs]. apply N.eqb_eq in Hr.
+    cbn [map List.app run_lines]. rewrite step_scalar_row by (try assumption; unfold lenN; cbn [length]; lia).
+    replace (lenN (r :: rows) + j - 1) with (lenN rows + j) by (unfold lenN; cbn [length]; lia).
+    rewrite IH by assumption. cbn [rev]. rewrite <- app_assoc. reflexivity.
+Qed.
+
+Definition attr_block (a : vattr) : list vline :=
+  LScalars (at_name a) (if at_k a =? 1 then None else Some (at_k a)) :: LLookup :: map LFloats (at_rows a).
+Definition to_pattr (a : vattr) : pattr := {| pa_name := at_name a; pa_k := at_k a; pa_rows := at_rows a |}.
+
+Lemma attr_lines_ok : forall nv attrs, forallb (attr_ok nv) attrs = true ->
+  attr_lines nv attrs = Ok (flat_map attr_block attrs).
+Proof.
+  intros nv. induction attrs as [|a attrs IH]; intro H; [reflexivity|].
+  cbn [forallb] in H. apply andb_prop in H as [Ha Hr].
+  unfold attr_ok in Ha. repeat (apply andb_prop in Ha as [Ha ?]).
+  cbn [attr_lines]. unfold name_ok in Ha.
+  assert (Hna : name_assert_passes (at_name a) = true).
+  { unfold name_assert_passes. destruct (at_name a) as [|c l]; [reflexivity|].
+    apply negb_true_iff in Ha. cbn [existsb] in Ha. apply orb_false_iff in Ha as [Hc _]. rewrite Hc. reflexivity. }
+  rewrite Hna. cbn [negb].
+  match goal with Hx : (at_len a =? nv) = true |- _ => rewrite Hx end.
+  match goal with Hx : (_ || _) = true |- _ => rewrite Hx end. cbn [negb].
+  rewrite (IH Hr). reflexivity.
+Qed.
+
+Lemma run_attr_blocks : forall nv attrs s pts tris pattrs rest,
+  forallb (attr_ok nv) attrs = true ->
+  settle s = mkst MPointData (Some nv) pts tris pattrs ->
+  exists s', run_lines s (flat_map attr_block attrs ++ rest) = run_lines s' rest /\
+             settle s' = mkst MPointData (Some nv) pts tris (rev (map to_pattr attrs) ++ pattrs).
+Proof.
+  intros nv. induction attrs as [|a attrs IH]; intros s pts tris pattrs rest H Hs.
+  - exists s. split; [reflexivity | exact Hs].
+  - cbn [forallb] in H. apply andb_prop in H as [Ha Hr].
+    pose proof Ha as Ha'. unfold attr_ok in Ha'. repeat (apply andb_prop in Ha' as [Ha' ?]).
+    match goal with Hx : (1 <=? at_k a) = true |- _ => apply N.leb_le in Hx; rename Hx into Hk end.
+    match goal with Hx : (lenN (at_rows a) =? nv) = true |- _ => apply N.eqb_eq in Hx; rename Hx into Hrows end.
+    cbn [flat_map]. rewrite <- app_assoc. unfold attr_block at 1.
+    cbn [List.app run_lines].
+    rewrite (step_scalars s (Some nv) pts tris pattrs (at_name a) (at_k a) Hk Ha' Hs).
+    rewrite step_lookup.
+    replace (MScalars (at_name a) (at_k a) nv []) with (MScalars (at_name a) (at_k a) (lenN (at_rows a) + 0) [])
+      by (f_equal; lia).
+    rewrite run_scalar_rows by assumption.
+    destruct (IH (mkst (MScalars (at_name a) (at_k a) 0 (rev (at_rows a) ++ [])) (Some nv) pts tris pattrs)
+                 pts tris (to_pattr a :: pattrs) rest Hr) as (s' & Hrun & Hs').
+    { cbn [settle mkst ps_mode ps_nv ps_pts ps_tris ps_attrs]. rewrite app_nil_r, rev_involutive. reflexivity. }
+    exists s'. split; [exact Hrun|]. rewrite Hs'. cbn [map rev]. rewrite <- app_assoc. reflexivity.
+Qed.
+
+Definition is_nl (c : N) : bool := (c =? 10) || (c =? 13).
+
+Lemma existsb_firstn_false : forall {A} (p : A -> bool) n l, existsb p l = false -> existsb p (firstn n l) = false.
+Proof.
+  intros A p n. induction n as [|n IH]; intros [|x l] H; try reflexivity.
+  cbn [existsb firstn] in *. apply orb_false_iff in H as [Hx Hl]. rewrite Hx, (IH l Hl). reflexivity.
+Qed.
+
+Lemma title_line_clean : forall title version, existsb is_nl (title ++ version) = false ->
+  existsb is_nl (title_line title version) = false.
+Proof.
+  intros title version H. rewrite existsb_app in H. apply orb_false_iff in H as [Ht Hv].
+  unfold title_line. apply existsb_firstn_false. unfold suffix_text.
+  rewrite !existsb_app. rewrite Hv.
+  destruct title as [|c t]; [reflexivity|]. rewrite existsb_app, Ht. reflexivity.
+Qed.
+
+Lemma header_ok_written : forall tl, lenN tl <= 205 -> existsb is_nl tl = false ->
+  header_ok LMagic (LTitle tl) LAscii LDataset = true.
+Proof.
+  intros tl Hlen Hnl. unfold header_ok. cbn [header_line_len].
+  assert (Hl : (26 + 1 + (lenN tl + 1) + (5 + 1) + (16 + 1) <=? max_header_length) = true)
+    by (apply N.leb_le; unfold max_header_length; lia).
+  rewrite Hl. cbn [comment_ok]. fold is_nl. rewrite Hnl. reflexivity.
+Qed.
+
+Lemma no_newline_title : forall title version, existsb is_nl (title ++ version) = false ->
+  existsb (N.eqb 10) title = false.
+Proof.
+  intros title version H. rewrite existsb_app in H. apply orb_false_iff in H as [Ht _].
+  induction title as [|c t IH]; [reflexivity|]. cbn [existsb] in *.
+  apply orb_false_iff in Ht as [Hc Hr]. unfold is_nl in Hc. apply orb_false_iff in Hc as [H10 _].
+  rewrite N.eqb_sym, H10, (IH Hr). reflexivity.
+Qed.
+
+Lemma vtk_parses_on_guard_lemma : forall title version vs ts attrs,
+  vtk_guard title version vs ts attrs = true ->
+  exists ls, vtk_write title version vs ts attrs = Ok ls /\
+             vtk_grammar ls = Some (expected_mesh vs ts attrs).
+Proof.
+  intros title version vs ts attrs Hg. unfold vtk_guard in Hg.
+  apply andb_prop in Hg as [Hg Hattrs]. apply andb_prop in Hg as [Hg Hts].
+  apply andb_prop in Hg as [Hnl Hlen]. apply negb_true_iff in Hnl. fold is_nl in Hnl.
+  apply N.leb_le in Hlen.
+  change (forallb tri_nonneg ts = true) in Hts.
+  pose proof (header_ok_written _ Hlen (title_line_clean _ _ Hnl)) as Hh.
+  unfold vtk_write. rewrite (no_newline_title _ _ Hnl).
+  assert (Hpts : forall rest,
+    run_lines init_state (LPoints (lenN vs) :: map vert_row vs ++ LPolygons (lenN ts) (4 * lenN ts)
+                            :: map tri_row ts ++ rest) =
+    run_lines (mkst (MPolys 0) (Some (lenN vs)) (rev (map (fun '(a, b, c) => [a; b; c]) vs))
+                    (Some (rev (map tri_toN ts))) []) rest).
+  { intro rest. cbn [run_lines]. change init_state with (mkst MTop None [] None []).
+    rewrite step_points_header by reflexivity. cbn [settle mkst ps_mode ps_tris ps_attrs].
+    replace (MPoints (lenN vs)) with (MPoints (lenN vs + 0)) by (f_equal; lia).
+    rewrite run_vert_rows. cbn [run_lines]. rewrite step_polys_header.
+    replace (MPolys (lenN ts)) with (MPolys (lenN ts + 0)) by (f_equal; lia).
+    rewrite run_tri_rows by exact Hts. rewrite !app_nil_r. reflexivity. }
+  assert (Hexp_pts : rev (rev (map (fun '(a, b, c) => [a; b; c]) vs)) = vm_points (expected_mesh vs ts attrs))
+    by (rewrite rev_involutive; reflexivity).
+  assert (Hexp_tris : rev (rev (map tri_toN ts)) = vm_tris (expected_mesh vs ts attrs))
+    by (rewrite rev_involutive; reflexivity).
+  destruct attrs as [|a0 ar].
+  - eexists. split; [reflexivity|].
+    unfold vtk_grammar. cbn [List.app]. rewrite Hh.
+    specialize (Hpts []). rewrite app_nil_r in Hpts. rewrite Hpts. cbn [run_lines settle mkst ps_mode set_mode
+      ps_nv ps_pts ps_tris ps_attrs]. rewrite ?rev_involutive. reflexivity.
+  - rewrite (attr_lines_ok _ _ Hattrs). cbn [bind]. eexists. split; [reflexivity|].
+    unfold vtk_grammar. cbn [List.app]. rewrite Hh.
+    rewrite <- !app_assoc. cbn [List.app].
+    rewrite (Hpts (LPointData (lenN vs) :: flat_map attr_block (a0 :: ar))).
+    cbn [run_lines]. rewrite step_point_data.
+    destruct (run_attr_blocks (lenN vs) (a0 :: ar)
+                (mkst MPointData (Some (lenN vs)) (rev (map (fun '(a, b, c) => [a; b; c]) vs))
+                      (Some (rev (map tri_toN ts))) [])
+                _ _ [] [] Hattrs eq_refl) as (s' & Hrun & Hs').
+    rewrite app_nil_r in Hrun. rewrite Hrun. cbn [run_lines]. rewrite Hs'.
+    cbn [mkst ps_mode ps_nv ps_tris ps_pts ps_attrs]. rewrite app_nil_r, ?rev_involutive.
+    reflexivity.
+Qed.
